@@ -37,7 +37,7 @@ def run(tier, seed):
     for k, x in base["results"].items():
         if k.endswith("/verifies") and x != "true":
             raise vlib.ToolError("serial proof does not verify: %s" % k)
-    pools = [1, 3, 8] if tier == "quick" else [1, 2, 3, 5, 8, 16, 24, 64]
+    pools = [1, 2, 3, 8] if tier == "quick" else [1, 2, 3, 5, 8, 16, 24, 64]
     reps = 1 if tier == "quick" else 20
     runs = compared = 0
     for th in pools:
